@@ -37,7 +37,7 @@ local macro "rank_go" hf:ident h0:ident h1:ident h2:ident h3:ident : tactic =>
     have hlr : lr s = if s.lrty then 4 else 0 := rfl
     cases hg : s.gen <;> cases hr : i.srcReady <;> cases hl : s.lrty <;>
       simp [$hf:ident, $h0:ident, $h1:ident, $h2:ident, $h3:ident, hfl, hg, hr, hl, fsm_beq, gen_beq, fsmNext, genNext, done,
-        lgoodDone, lcrdDone, dispatchNext, generate, ph, nf, nr, en, step_fsm, step_gen]
+        lgoodDone, lcrdDone, dispatchNext, generate, ph, nf, nr, na, en, step_fsm, step_gen]
         at fa fc fb flr lgA lcC fA fC g0 lrD lbD lbS lxD hlr hlbc hlxc hT hz ⊢ <;>
       (repeat' split) <;> (try simp only [ph] at *) <;> omega))
 
@@ -46,6 +46,7 @@ local macro "rank_pre" : tactic =>
   `(tactic| (
     obtain ⟨fa, fc, fb, flg, flc, fac, a4, a3, bc, bc3, cr, hk, hc, pb, lgA, lcC, fA, fC, g0, en, nf, nr, accA,
       bcA, popB, aL, pL, lrN, lrD, lbI⟩ := facts_of (c := c) hI e
+    have na := no_abort (c := c) hI e
     obtain ⟨lb, lbK, lbN, lbD, lbS, lrK, lrN4, lxK, lxN, lxD, kaK⟩ := facts2_of (c := c) hI e
     have flr := cnt_kas s i n
     have bB := b2_le (badEv s)
